@@ -313,7 +313,8 @@ func checkBind(v any, ds destSpec, pre bool) []string {
 func genC16(tier string) []Scenario {
 	vals := bindValues()
 	if tier == "thorough" {
-		vals = append(vals, derivedValues(vals[:30])...)
+		vals = append(vals, derivedValues(vals)...)
+		vals = append(vals, derivedValues(baseValues()[:120])...)
 	}
 	dests := destSpecs()
 	var out []Scenario
